@@ -13,6 +13,10 @@ RULE = (
     "key lists with duplicates; oracle = ASCII regular expressions. distinct = (validator, input) pairs; non-trivial = input is not "
     "None/empty."
 )
+RULE_ADDENDUM = (
+    'Additional: siblings of a value right after it was accepted, repeat-after-reject, key lists whose length errors cancel out, validators under threads.'
+)
+RULE = RULE + " " + RULE_ADDENDUM
 LIMITS = ["objects with hostile dunder methods are out of scope", "str/dict subclasses are grey (tallied, not judged)"]
 ASSUMPTIONS = ["the documented grammars are ^[0-9a-f]{64|128|40}$ and the two entry shapes of the docstrings"]
 
